@@ -39,6 +39,7 @@ class _StoreSplitAction(argparse.Action):
     ):
         self.sep = kwargs.pop("sep", None)
         self.format = kwargs.pop("format", None)
+        self.flag_name = option_strings[0]
         super().__init__(option_strings, dest, nargs=nargs, **kwargs)
 
     def __call__(
@@ -56,7 +57,7 @@ class _StoreSplitAction(argparse.Action):
             split_values = [template.substitute(value=v) for v in split_values]
         if self.dest == "passes":
             passes = getattr(namespace, "_passes")
-            passes[option_string] = split_values
+            passes[self.flag_name] = split_values
         else:
             setattr(namespace, self.dest, split_values)
 
